@@ -293,7 +293,9 @@ def run_scoped_exact():
     from edit_lib import read_layers
     DOCS = ['let\n  a = 1;\nin\nlet\n  b = 2;\nin\n{\n  c = b;\n}\n', 'let\n  a = 1;\n  z = 0;\nin\nlet\n  b = 2;\nin\n{\n  c = b;\n}\n',
             'let\n  a = 1;\nin\nlet\n  b = 2;\nin\nlet\n  c = 3;\nin\n{\n  d = c;\n}\n', 'let\n  a = 1;\nin\nlet\n  b = 2;\n  y = 0;\nin\nlet\n  c = 3;\nin\n{\n  d = c;\n}\n',
-            'let\n  a = 1;\nin\n{\n  c = a;\n}\n', '{ pkgs }:\nlet\n  a = 1;\nin\nlet\n  b = 2;\nin\n{\n  c = b;\n}\n']
+            'let\n  a = 1;\nin\n{\n  c = a;\n}\n', '{ pkgs }:\nlet\n  a = 1;\nin\nlet\n  b = 2;\nin\n{\n  c = b;\n}\n',
+            # thirteenth round: attrpath families inside the layers (a sibling and a deeper leaf are added below the existing root)
+            'let\n  a.p = 1;\nin\nlet\n  b.q = 2;\n  b.r = 3;\nin\n{\n  x = a;\n}\n', '{ pkgs }:\nlet\n  cfg.a = 1;\nin\nlet\n  cfg.a = 2;\n  y = 3;\nin\n{\n  v = cfg.a;\n}\n']
     def expect(layers, op):
         depth = len(op[1]) - len(op[1].lstrip('@')); name = op[1].lstrip('@'); L = [dict(x) for x in layers]
         if op[0] == 'set' and depth == 1 and not L: return [{name: op[2]}]          # `set @name` on a document without a let wraps it in one
@@ -313,7 +315,16 @@ def run_scoped_exact():
         if res[0] != 'ok': bad('well-formed scoped edit refused: %s' % (res[1:],), doc=hist[0], ops=hist[1] + [list(op)]); return None
         lay1 = read_layers(res[1]); tr1 = read_tree(res[1])
         if lay1 is None or tr1 is None: bad('emitted text does not parse', doc=hist[0], ops=hist[1] + [list(op)], out=res[1]); return None
-        if [sorted(x.items()) for x in lay1] != [sorted(x.items()) for x in exp] or tr1 != tr0:
+        def flat(L):       # `cfg = { a = 9; }` and `cfg.a = 9` define the same attribute: layers are compared as flattened attribute trees
+            from edit_lib import value_leaves
+            out = {}
+            for k_, v_ in L.items():
+                for pth, leaf in (value_leaves(v_) or {(): v_}).items():
+                    kk = k_ + ''.join('.' + seg for seg in pth)
+                    while kk in out: kk += ' (defined again)'
+                    out[kk] = norm(leaf)
+            return sorted(out.items())
+        if [flat(x) for x in lay1] != [flat(x) for x in exp] or tr1 != tr0:
             bad('let layers after a scoped edit are not the requested change', doc=hist[0], ops=hist[1] + [list(op)], out=res[1], expected=[sorted(x.items()) for x in exp], got=[sorted(x.items()) for x in lay1])
             return None
         return res[1]
@@ -323,7 +334,7 @@ def run_scoped_exact():
         firsts = []
         for depth in range(1, len(lay) + 2):
             names = sorted(lay[len(lay) - depth]) if depth <= len(lay) else ['a']
-            for nm in names + ['fresh']:
+            for nm in names + ['fresh'] + sorted({n_.split('.')[0] + sfx for n_ in names if '.' in n_ for sfx in ('.fresh', '.sub.deep')}):
                 firsts += [('rm', '@' * depth + nm), ('set', '@' * depth + nm, '9')]
         for op in firsts:
             cur = step(text, op, (text, []))
@@ -473,7 +484,11 @@ def run_C19():
     # other bindings or carrying comments (the layer is written back in source order, not in lookup order)
     for text, sels in [('let\n  x.y = 1;\n  q = 2;\n  x.z = 3;\nin\n{\n  a = q;\n}\n', ['@fresh', '@x.fresh']), ('let\n  x.y = 1; # c\n  q = 2;\nin\n{\n  a = q;\n}\n', ['@fresh', '@x.fresh']),
                        ('{ pkgs }:\nlet\n  m.a = 1;\n  k = 2;\n  m.b = 3;\nin\nlet\n  z = 1;\nin\n{\n  a = k;\n}\n', ['@fresh', '@@fresh', '@@m.fresh']),
-                       ('let\n  # lead\n  s.a.b = 1;\n  t = 2; # eol\n  s.a.c = 3;\n  s.d = 4;\nin\n{\n  a = t;\n}\n', ['@fresh', '@s.fresh', '@s.a.fresh'])]:
+                       ('let\n  # lead\n  s.a.b = 1;\n  t = 2; # eol\n  s.a.c = 3;\n  s.d = 4;\nin\n{\n  a = t;\n}\n', ['@fresh', '@s.fresh', '@s.a.fresh']),
+                       # thirteenth round: a comment on the `let` line of one layer of a stack (each layer keeps its own)
+                       ('let # shared inputs\n  x = 1;\nin\nlet\n  y = 2;\nin\n{\n  a = x;\n  b = y;\n}\n', ['@z', '@@z']),
+                       ('let\n  x = 1;\nin\nlet # derived\n  y = 2;\nin\n{\n  a = x;\n  b = y;\n}\n', ['@z', '@@z']),
+                       ('{ pkgs }:\nlet # one\n  x = 1;\nin\nlet # two\n  y = 2;\nin\nlet\n  w = 3;\nin\n{\n  a = x;\n}\n', ['@z', '@@z', '@@@z'])]:
         for sel in sels:
             for reparse in (False, True):
                 count('directed-scoped-set-rm'); a = parse(text); r1 = apply(a, ('set', sel, '5'))
@@ -577,6 +592,6 @@ def run_C19():
             bad('law check crashed: %s %s' % (type(e).__name__, e), doc=text)
         if len(samples) < 2: samples.append({'doc': text, 'law': law})
 
-{'C08': run_C08, 'C05': lambda: (run_tree('C05'), run_scoped_exact()), 'C04': lambda: (run_tree('C04'), run_scoped_frame()), 'C06': lambda: (run_tree('C06'), multiline_values()), 'C09': run_C09, 'C19': run_C19}[prop]()
+{'C08': run_C08, 'C05': lambda: (run_tree('C05'), run_scoped_exact()), 'C04': lambda: (run_tree('C04'), run_scoped_frame(), run_scoped_exact()), 'C06': lambda: (run_tree('C06'), multiline_values()), 'C09': lambda: (run_C09(), run_scoped_exact()), 'C19': run_C19}[prop]()
 print(json.dumps({'evaluations': sum(dist.values()), 'distinct': len(dist), 'distribution': dist, 'violations': viol[:6], 'n_violations': len(viol),
                   'known_hits': known, 'samples': samples}, default=str))
